@@ -33,7 +33,7 @@ Definition PV (c : nat) (v : val) : Prop :=
 
 Definition PL (l : loc) : Prop :=
   match l with
-  | Src rest => forall x, x ∈ rest -> x ∈ reqs
+  | Src rest | SrcStalled rest => forall x, x ∈ rest -> x ∈ reqs
   | WIdle i | WClose i | MIdle i => i < N
   | WFill i id => i < N /\ has id false
   | WSend i id => i < N /\ has id false /\ fill_ok id = true
@@ -79,12 +79,13 @@ Proof. intros [[H _]|[[[(i & Hi & H)|H] _]|[[H _]|[[H _]|[H _]]]]]; chan_lia. Qe
 Lemma pipeline_typed_beh : typed_beh beh PL PV PE.
 Proof.
   intros l HPL. destruct l as
-    [rest| |i|i id|i id|i id|i|i|i v| | | |id|id| | | | | | |j|j v| | | |v|r v|r]; simpl in *; try done.
+    [rest| |i|i id|i id|i id|i|i|i v| | | |id|id| | | | | | |j|j v| | | |v|r v|r|srest]; simpl in *; try done.
   - destruct rest as [|[id b] r]; simpl; [done|].
-    intros g k Hin. alts Hin; simpl; [|done].
-    split.
-    + left. split; [reflexivity|]. exists id, b. split; [reflexivity|]. apply HPL. left.
-    + intros x Hx. apply HPL. right. assumption.
+    intros g k Hin. alts Hin; simpl; [| |exact HPL].
+    * split.
+      -- left. split; [reflexivity|]. exists id, b. split; [reflexivity|]. apply HPL. left.
+      -- intros x Hx. apply HPL. right. assumption.
+    * intros x Hx. apply HPL. right. assumption.
   - intros g k Hin. alts Hin; simpl; [done|]. split; [|done].
     intros v Hv. apply PV_in in Hv. destruct Hv as (id & b & -> & Hhas). destruct b; simpl.
     + split; [assumption|]. left. assumption.
@@ -113,6 +114,7 @@ Proof.
   - intros g k Hin. alts Hin; simpl; [done|]. split; [|done]. right. right. right. right. auto.
   - intros g k Hin. alts Hin; simpl. split; [|done]. intros v Hv. apply PV_eout. assumption.
   - intros o. split; [done|]. constructor; [assumption|constructor].
+  - intros g k Hin. apply elem_of_nil in Hin. destruct Hin.
 Qed.
 
 Lemma init_typed cap : typed PL PV PE (init N cap reqs).
@@ -153,7 +155,7 @@ Definition needs (l : loc) : list nat :=
 Lemma pipeline_needs_beh : needs_beh beh needs.
 Proof.
   intros l. destruct l as
-    [rest| |i|i id|i id|i id|i|i|i v| | | |id|id| | | | | | |j|j v| | | |v|r v|r]; simpl; try done.
+    [rest| |i|i id|i id|i id|i|i|i v| | | |id|id| | | | | | |j|j v| | | |v|r v|r|srest]; simpl; try done.
   - destruct rest as [|[id b] r]; simpl; [done|]. intros g k Hin. alts Hin; simpl; done.
   - intros g k Hin. alts Hin; simpl; [done|]. split; [|set_solver].
     intros v. destruct v as [id b|id|id|id|]; simpl; try done. destruct b; done.
@@ -172,6 +174,7 @@ Proof.
   - intros g k Hin. alts Hin; simpl; done.
   - intros g k Hin. alts Hin; simpl. split; [done|set_solver].
   - intros g k Hin. apply elem_of_nil in Hin. destruct Hin.
+  - intros g k Hin. apply elem_of_nil in Hin. destruct Hin.
 Qed.
 
 Definition has_closed (l : loc) (c : nat) : Prop :=
@@ -189,7 +192,7 @@ Definition has_closed (l : loc) (c : nat) : Prop :=
 Lemma pipeline_closers_beh : closers_beh beh has_closed.
 Proof.
   intros l. destruct l as
-    [rest| |i|i id|i id|i id|i|i|i v| | | |id|id| | | | | | |j|j v| | | |v|r v|r]; simpl; try done.
+    [rest| |i|i id|i id|i id|i|i|i v| | | |id|id| | | | | | |j|j v| | | |v|r v|r|srest]; simpl; try done.
   all: try (destruct rest as [|[id b] r]; simpl; try done).
   all: split; [first [reflexivity|left; reflexivity|right; reflexivity]|intros c' Hc'; try done; subst; auto].
 Qed.
@@ -197,7 +200,7 @@ Qed.
 Lemma pipeline_did_beh : did_beh beh has_closed.
 Proof.
   intros l. destruct l as
-    [rest| |i|i id|i id|i id|i|i|i v| | | |id|id| | | | | | |j|j v| | | |v|r v|r]; simpl; try done.
+    [rest| |i|i id|i id|i id|i|i|i v| | | |id|id| | | | | | |j|j v| | | |v|r v|r|srest]; simpl; try done.
   - destruct rest as [|[id b] r]; simpl; [intros c' ->; left; reflexivity|].
     intros g k r0 c Hin. alts Hin; simpl; done.
   - intros c' ->. left. reflexivity.
@@ -223,6 +226,7 @@ Proof.
   - intros g k r0 c Hin. alts Hin; simpl; done.
   - intros c' ->. left. reflexivity.
   - intros g k r0 c Hin. alts Hin; simpl. destruct r0; done.
+  - intros g k r0 c Hin. apply elem_of_nil in Hin. destruct Hin.
   - intros g k r0 c Hin. apply elem_of_nil in Hin. destruct Hin.
 Qed.
 
